@@ -231,10 +231,10 @@ func TestC10(t *testing.T) {
 }
 
 // crashCheck registers a crash-engine check.
-func crashCheck(t *testing.T, id string, prof Profile, rule string, quick, thorough int, nt func(res Result, labels []string) bool) {
+func crashCheck(t *testing.T, id string, prof Profile, rule string, quick, thorough int, nt func(res Result, labels []string) bool, known ...evid.Known[Plan]) {
 	InBubble = true
 	evid.Run(t, evid.Spec[Plan]{
-		ID: id, Level: "fault_enumeration", Bubble: true, Rule: rule,
+		ID: id, Level: "fault_enumeration", Bubble: true, Rule: rule, Known: known,
 		Assumptions: append([]string{"crash model = vfs.MemFS's: synced data survives; each unsynced 4KiB block and each unsynced directory entry survives independently; unsynced removals may be undone. Not a model of every real file system.",
 			"crash points are file-system operation boundaries (images are taken before the selected mutating operation); survival subsets: none, all, and pseudo-random subsets"}, commonAssumptions...),
 		Gen: func(t *rapid.T) Plan { return Generate(t, prof) },
@@ -257,14 +257,38 @@ var profCrashPrefix = Profile{
 	Opt: func(t *rapid.T, o *OptPlan) { crashOpt(t, o); o.DisableWAL = false },
 }
 
+// baseOpt is a plain configuration for hand-written demonstration plans.
+func baseOpt() OptPlan {
+	return OptPlan{FMV: int(pebble.FormatNewest), MemTableSize: 32 << 10, MemStop: 2, L0Compaction: 2, L0CompactionFiles: 500, LBaseMaxBytes: 1 << 20,
+		TargetFileSize: 16 << 10, BlockSize: 4096, IndexBlockSize: 4096, RestartInterval: 16, MaxManifest: 128 << 20, ConcurrencyMax: 1, BundleSize: 16, CacheSize: 1 << 20}
+}
+
+// sigC11Ingest: an ingestion that does not overlap the memtable is made durable
+// by the MANIFEST although earlier, not yet synced, key-disjoint commits are
+// only in the WAL buffer: after a crash the later ingestion is present and the
+// earlier write is gone, which is no prefix of the history.
+const sigC11Ingest = "ingest-survives-crash-while-earlier-unsynced-write-is-lost"
+
+var knownC11 = evid.Known[Plan]{Signature: sigC11Ingest, Plan: Plan{Profile: "crash-prefix", Opt: baseOpt(),
+	Crash: &CrashPlan{Stride: 0, Surv: []int{0}, MaxImages: 1},
+	Steps: []Step{
+		{K: "write", Ops: []Op{{K: "set", A: "a", V: "v1"}}},
+		{K: "ingest", Tables: [][]Op{{{K: "set", A: "c", V: "v2"}}}},
+		{K: "crashrestart", N: 0},
+	}}}
+
 func TestC11(t *testing.T) {
+	profCrashPrefix := profCrashPrefix
+	// excluded by construction while the finding is listed (the generator then
+	// flushes before an ingest/excise whenever un-synced commits are pending)
+	profCrashPrefix.DurableIngest = evid.FindingActive("C11", sigC11Ingest)
 	crashCheck(t, "C11", profCrashPrefix,
 		"as C10 but mostly NoSync commits, multi-op batches (atomicity), delete/range-delete/single-delete/merge heavy histories (resurrection and double application are observable: a replayed Merge appends twice) and 0-3 crash-and-continue cycles per case: at a drawn point a crash image with a drawn survival subset replaces the store, the recovered state must equal model[k] for some k in [durable, latest], the model is reset to that k and the history continues (second-generation images are checked the same way, including images taken during recovery). "+
 			"non-trivial = at least two candidate states differed for some image (ambiguous window) and a crash-and-continue happened or an image recovered a k strictly inside the window; distinct = hash of plan JSON",
 		70, 400,
 		func(res Result, ls []string) bool {
 			return res.C["crash-images-ambiguous"] > 0 && (res.C["crash-restarts"] > 0 || res.C["crash-recovered-strictly-inside"] > 0)
-		})
+		}, knownC11)
 }
 
 var profCrashFlush = Profile{
@@ -295,12 +319,28 @@ var profORGD = Profile{
 	Opt:      crashOpt,
 }
 
+// sigC13Ingest: an OnlyReadGuaranteedDurable iterator ignores the memtables but
+// shows every table of the current version; an ingestion that did not overlap
+// the memtable (so it was not flushed first) is shown although earlier commits,
+// still in the memtable, are not: no prefix of the history.
+const sigC13Ingest = "orgd-shows-ingest-without-earlier-unflushed-writes"
+
+var knownC13 = evid.Known[Plan]{Signature: sigC13Ingest, Plan: Plan{Profile: "orgd", Opt: baseOpt(),
+	Crash: &CrashPlan{Stride: 0, Surv: []int{0}, MaxImages: 1},
+	Steps: []Step{
+		{K: "write", Ops: []Op{{K: "set", A: "a", V: "v1"}}, Sync: true},
+		{K: "ingest", Tables: [][]Op{{{K: "set", A: "c", V: "v2"}}}},
+		{K: "orgd"},
+	}}}
+
 func TestC13(t *testing.T) {
+	profORGD := profORGD
+	profORGD.FlushBeforeIngest = evid.FindingActive("C13", sigC13Ingest)
 	crashCheck(t, "C13", profORGD,
 		"mixed Sync/NoSync histories with flushes (ingests only when the memtable is flushed); at drawn quiescent points an iterator is opened with OnlyReadGuaranteedDurable and, at that moment, a crash image keeping only synced data is taken; the iterator content must equal model[k1] for some k1 and the image must recover model[k2] with k1 <= k2. "+
 			"non-trivial = 0 < k1 < latest (the memtable held newer data that had to be excluded and something durable existed); distinct = hash of plan JSON",
 		150, 800,
-		func(res Result, ls []string) bool { return res.C["orgd-reads-strict-prefix"] > 0 })
+		func(res Result, ls []string) bool { return res.C["orgd-reads-strict-prefix"] > 0 }, knownC13)
 }
 
 var profManifest = Profile{
